@@ -105,7 +105,7 @@ def after_case(c):
     text = H + "for %s i in %s\n    G(i) | 0\nQ(i) | 1\n" % (t, h)
     st, p = common.loads(text)
     if st == "ok":
-        return ("C06/loop-variable-visible-after-loop", "Q(i) after the loop loaded with args %r" % (p.operations[-1].get("args"),))
+        return ("C06/loop-variable-visible-after-loop", "Q(i) after the loop loaded: operations %r" % ([(o["op"], o.get("args")) for o in p.operations][-3:],))
     if not common.is_bbsyntax(p) and not (not vals and type(p).__name__ == "KeyError"):
         return ("C06/after-loop-use-wrong-exception:" + type(p).__name__, common.exc_sig(p))
     if not vals and type(p).__name__ == "KeyError":
@@ -125,6 +125,7 @@ def wrong_case(c):
 FAM = {"pair": pair_case, "after": after_case, "wrong": wrong_case}
 
 
+@common.guarded("C06")
 def _case(c):
     return FAM[c[0]](c[1])
 
